@@ -333,10 +333,15 @@ def c16Run : Handler := fun j => do
       let o := runSession c acc.1 si
       (o.disk, sessionJ c o :: acc.2)) (Disk.blank, [])
   let fin := runSession c d finIn
-  -- the hypothesis of the `_rounded` theorems (`Rounding.Consistent`) on the values of this case
-  let cons := c.raw.all (fun v => match v with
-    | none => true
-    | some x => c.R.mem x == c.R.file x && c.R.file (c.R.file x) == c.R.file x)
+  -- the hypothesis of the `_rounded` theorems (`Rounding.Consistent`, a statement about EVERY integer): the two
+  -- roundings are finite tables and the identity elsewhere, so it holds for every integer iff it holds on the raw
+  -- metrics and on every key and value of the two tables (audit F: only the raw metrics of the deciding column
+  -- were looked at, which left `mem (file x) = file x` — what a RESTARTED controller compares — unchecked when
+  -- `file x` is not itself a raw metric)
+  let tf ← parseTable j "file"
+  let tm ← parseTable j "mem"
+  let keys : List Int := c.raw.filterMap id ++ tf.map (·.1) ++ tf.map (·.2) ++ tm.map (·.1) ++ tm.map (·.2)
+  let cons := keys.all (fun x => c.R.mem x == c.R.file x && c.R.file (c.R.file x) == c.R.file x)
   pure (objJ [("sessions", Json.arr outs.reverse.toArray), ("final", sessionJ c fin),
               ("rounding_consistent", boolJ cons)])
 
